@@ -39,6 +39,40 @@ CHECKS['C08'] = dict(
          'per root cause.',
     design='4 C08')
 
+CHECKS['C01'] = dict(
+    technique='Hypothesis-generated (class model, document) pairs with a '
+              'conformance validity predicate on the returned value and on '
+              'the constructor arguments logged by generated classes',
+    text='Generated models with all features (hierarchies, abstract and '
+         'unregistered classes, enums, string-likes, Union/Optional, '
+         'containers and abstract variants, Any, date, Path, bool_union_fix, '
+         'extras, permissive recognisers, node-rewriting and adversarial '
+         'savorize hooks) x valid, mutated, tagged, aliased, random and empty '
+         'documents; whatever load() returns must conform to the document '
+         'type all the way down and every logged __init__ call must have '
+         'received conforming arguments.',
+    design='4 C01')
+CHECKS['C04'] = dict(
+    technique='Hypothesis-generated tag injection with constructor-log, '
+              'plain-data and canary-module oracles',
+    text='Generated models with Any/untyped/extra positions and a registered '
+         'trap class x documents with registered, unknown, !!python/* and '
+         'core tags injected at 1-5 nodes; checked whether or not the load '
+         'fails: trap never constructed, only admissible classes constructed, '
+         'constructor arguments conform, Any positions hold plain data, the '
+         'canary module is never imported.',
+    design='4 C04')
+CHECKS['C18'] = dict(
+    technique='Hypothesis-generated differential test: aliased document vs '
+              'its alias-expanded copy (metamorphic relation), plus cyclic '
+              'templates',
+    text='Generated (model, document) pairs where 1-3 sub-nodes (scalars, '
+         'collections, keys; equal subtrees or subtrees copied to positions '
+         'of other declared types; seasoned classes) are shared through '
+         'anchors; the outcome must equal that of the expanded document. '
+         'Cyclic documents must be rejected with RecognitionError/YAMLError.',
+    design='4 C18')
+
 NOT_YET = 'check not built yet in this session (work in progress)'
 
 
